@@ -360,8 +360,9 @@ def _noepoch_strategy(tier):
 
 subcheck("C16", "crash_no_epoch_field", _noepoch_strategy, quick=25, thorough=600,
          doc="formats without the epoch field (model.pt / optim.pt), keep_last_and_best_only, strictly improving metric: "
-             "every crash point as above",
-         required_classes=["history_before_checkpoint"], timeout_s=6000)(_crash_check)
+             "every crash point as above (every history meets known finding KF-C16-1; the matcher accepts a history only "
+             "if ALL its failing crash points have that shape, so the other points are still judged)",
+         timeout_s=6000)(_crash_check)
 
 
 def _enum_small(tier):
